@@ -24,7 +24,7 @@ func init() {
 		Property: "C14", EngineName: "chainsim",
 		New:       func(tier string) core.Engine { return &chainsim{tier: tier} },
 		QuickRuns: 40000, QuickCapS: 60, ThoroughRun: 2000000, ThoroughCap: 1200,
-		Rule: "a case = (entry API kind, chain of 1-8 frames each one of 14 script frame kinds or 15 native calling conventions, payload kind raised by the innermost frame / interrupt tick / call-depth limit, what the Go-implemented return() and next() of every host iterator consumed by a for-of / destructuring frame or by an iterate()-based built-in (Array.from mapper, Set subclass add(), Promise.all resolve) do); distinct = distinct (entry, frame-kind sequence, payload kind); non-trivial = the chain has at least one native frame and the abrupt state crossed at least one script catch/finally frame",
+		Rule: "a case = (entry API kind, chain of 1-8 frames each one of 14 script frame kinds or 16 native calling conventions, payload kind raised by the innermost frame / interrupt tick / call-depth limit, what the Go-implemented return() and next() of every host iterator consumed by a for-of / destructuring frame or by an iterate()-based built-in (Array.from mapper, Set subclass add(), Promise.all resolve) do); distinct = distinct (entry, frame-kind sequence, payload kind); non-trivial = the chain has at least one native frame and the abrupt state crossed at least one script catch/finally frame",
 		Real: realComponents,
 		Stub: []string{"every native frame of the chain (host functions of each calling convention)", "the host-implemented iterators (objects made by Go whose [Symbol.iterator], next and return are Go functions)", "the catch/finally recorders C and F", "the raiser (innermost frame) and the interrupting watchdog (tick hook, same goroutine)"},
 		Assumptions: []string{
@@ -98,7 +98,10 @@ func (e *chainsim) Run(t *core.Tape, want bool) *core.Result {
 	switch cat := S.Draw(16); {
 	case cat == 0:
 	case cat <= 4:
-		payload = cpJsNumber + S.Draw(cpJsEarlierGoError-cpJsNumber+1)
+		payload = cpJsNumber + S.Draw(cpJsJobGoError-cpJsNumber+1+4)
+		if payload > cpJsJobGoError {
+			payload = cpJsEarlierGoError + (payload-cpJsJobGoError-1)%4 // the pre-created Error objects get double weight
+		}
 	case cat <= 7:
 		payload = cpGoNumber + S.Draw(cpGoExceptionPrim-cpGoNumber+1)
 	case cat <= 10:
@@ -459,6 +462,8 @@ func (e *chainsim) Run(t *core.Tape, want bool) *core.Result {
 		cnt(m.retForeignOnReturn, "foreign-panic-in-return()-after-normal-completion")
 		cnt(m.iterNotClosedAbrupt, "host-iterator-passed-by-foreign-panic")
 		cnt(m.nextThrew, "host-iterator-next()-threw")
+		cnt(m.rewrapped, "native-rewrapped-exception-with-NewGoError")
+		cnt(m.rewrappedGoErr, "native-rewrapped-a-GoError-exception-with-NewGoError")
 		cnt(m.forOfClosedOnThrow, "ForOf-step-closed-by-throw")
 		cnt(m.forOfClosedOnStop, "ForOf-step-closed-by-stop")
 		cnt(m.forOfPassedForeign, "ForOf-step-passed-by-foreign-panic")
@@ -660,6 +665,9 @@ func (e *chainsim) judgeExact(res *core.Result, fo *chOutcome, m *chModel, sig s
 					return
 				}
 				res.Count("stack-top-frame-checked", 1)
+				if chPayloadPreCreated(r.payload) {
+					res.Count("precreated-error-stack-top-frame-checked", 1)
+				}
 			}
 		}
 	}
